@@ -113,7 +113,7 @@ fn exchange(t: &mut Trace, rng: &mut Rng, facts: bool) -> usize {
     let mut outs: [Vec<u8>; 2] = [vec![], vec![]]; // everything A / B emitted (handshake bytes)
     let mut done = [false, false];
     let mut sent_t = [false, false];
-    let tlen = [*rng.pick(&[0usize, 1, 2, 17, 64]), *rng.pick(&[0usize, 1, 5, 64, 300])];
+    let tlen = [*rng.pick(&[0usize, 1, 2, 17, 64, 1538]), *rng.pick(&[0usize, 1, 5, 64, 300, 2000])];
     let trailing: [Vec<u8>; 2] = [(0..tlen[0]).map(|i| (i * 7 + 1) as u8).collect(), (0..tlen[1]).map(|i| (i * 3 + 2) as u8).collect()];
     let mut app: [Vec<u8>; 2] = [vec![], vec![]];
     let mode = if facts { *rng.pick(&[0u64, 2, 3]) } else { *rng.pick(&[0u64, 0, 0, 0, 0, 2, 2, 2, 2, 2, 2, 2, 3, 3, 3, 3, 3, 3, 3, 1]) };
@@ -189,6 +189,63 @@ fn exchange(t: &mut Trace, rng: &mut Rng, facts: bool) -> usize {
     calls
 }
 
+/// lib (either role, side A) against a harness-made peer that speaks the ORIGINAL digest-less handshake, under real
+/// fragmentation: the peer sends 3 + packet 1 (no digest), echoes our packet 1 as its packet 2 once it has it, then
+/// application data.  Only side A is a library object; its calls are judged by HsStep like any other.
+fn exchange_legacy(t: &mut Trace, rng: &mut Rng) -> usize {
+    let role = if rng.chance(1, 2) { "client" } else { "server" };
+    let mut a = Side { h: Handshake::new(if role == "client" { PeerType::Client } else { PeerType::Server }), name: "A", role };
+    t.emit(&json!({"ev":"HsNew","side":"A","role":role}));
+    let mut p1 = rng.bytes(P);
+    for i in 0..8 { p1[i] = 0; }
+    if rng.chance(1, 3) { p1[4] = 9; } // some peers put a non-zero version there and still expect the original handshake
+    let tlen = *rng.pick(&[0usize, 1, 3, 64, 1537, 1538, 2000]);
+    let trailing: Vec<u8> = (0..tlen).map(|i| (i * 5 + 3) as u8).collect();
+    let mut to_a: Vec<u8> = Vec::new();      // in flight towards the library
+    let mut from_a: Vec<u8> = Vec::new();    // everything the library emitted
+    let mut peer_sent_p2 = false;
+    let mode = *rng.pick(&[0u64, 0, 2, 2, 2, 3, 3, 3, 1]);
+    let mut calls = 0usize;
+    let mut done = false;
+    let mut app: Vec<u8> = Vec::new();
+    let a_starts = rng.chance(1, 2);
+    if a_starts {
+        let (ev, bytes) = gen_event(&mut a);
+        t.emit(&ev);
+        from_a.extend_from_slice(&bytes);
+    }
+    to_a.push(3);
+    to_a.extend_from_slice(&p1);
+    let mut guard = 0;
+    loop {
+        guard += 1;
+        if guard > 20000 { break; }
+        if !peer_sent_p2 && from_a.len() >= 1 + P {
+            peer_sent_p2 = true;
+            let echo = from_a[1..1 + P].to_vec();
+            to_a.extend_from_slice(&echo);
+            to_a.extend_from_slice(&trailing);
+        }
+        if to_a.is_empty() { break; }
+        // the peer's bytes may sit in the network while the library's answer travels: hold back delivery now and then
+        let n = cut(rng, mode, to_a.len());
+        let piece: Vec<u8> = to_a.drain(..n).collect();
+        if done { app.extend_from_slice(&piece); continue; }
+        let (ev, resp, completed, rem) = proc_event(&mut a, &piece);
+        calls += 1;
+        let failed = ev["res"] != "ok";
+        t.emit(&ev);
+        if failed { break; }
+        from_a.extend_from_slice(&resp);
+        if completed { done = true; app.extend_from_slice(&rem); }
+    }
+    t.emit(&json!({"ev":"AppData","side":"A","done":done,"intact":done && app == trailing,"want":trailing.len(),"got":app.len()}));
+    if from_a.len() == 1 + 2 * P {
+        t.emit(&p2_facts(&from_a[1 + P..], &p1, role, -1));
+    }
+    calls
+}
+
 /// lib against a crafted packet 1: every offset of both schemes, or a digest-less packet (echo expected)
 fn crafted(t: &mut Trace, rng: &mut Rng, lib_role: &str, scheme: u64, offset: u32, high: bool, legacy: bool) {
     let mk = |r: &str| if r == "client" { PeerType::Client } else { PeerType::Server };
@@ -252,6 +309,11 @@ pub fn generate(kind: &str, tier: &str, seed: u64, shard: u64, nshards: u64, pat
                 calls += exchange(&mut t, &mut rng, false);
                 runs += 1;
             }
+            // against the legacy (digest-less) peer, fragmented
+            for _ in 0..(n / 2 + 1) {
+                calls += exchange_legacy(&mut t, &mut rng);
+                runs += 1;
+            }
             // against the legacy peer
             for i in 0..(n / 4 + 1) {
                 crafted(&mut t, &mut rng, if i % 2 == 0 { "server" } else { "client" }, 0, 0, false, true);
@@ -268,6 +330,11 @@ pub fn generate(kind: &str, tier: &str, seed: u64, shard: u64, nshards: u64, pat
                 if i % 8 == 0 {
                     calls += exchange(&mut t, &mut rng, true); // and with the real random fill
                 }
+                runs += 1;
+            }
+            // digest-less peers under fragmentation: the answer must be an exact echo
+            for _ in 0..12 {
+                calls += exchange_legacy(&mut t, &mut rng);
                 runs += 1;
             }
             // received packets: all 728 offsets x both schemes x both roles (+ high preimages), split over shards
